@@ -31,6 +31,7 @@ class PolyCtx:
         self.poly_atom = {}       # canonical poly key -> atom idx (denominator polynomials represented by an atom)
         self.atom_poly = {}       # atom idx -> poly it stands for (for 'den' atoms)
         self.positive = set(positive_vars)
+        self.sqrt_by_canon = {}
         self.log = []
 
     # ---- atoms ---------------------------------------------------------------
@@ -83,34 +84,33 @@ class PolyCtx:
         return self.reduce(r)
 
     def reduce(self, p):
-        """apply s^2 -> radicand for sqrt atoms and D * D^-1 handled by exponents; den atoms with positive power expand? no."""
-        again = True
-        guard = 0
-        while again:
-            again = False
-            guard += 1
-            if guard > 50: break
-            for m in list(p.keys()):
+        """apply s^2 -> radicand (and s^-2 -> 1/radicand) for sqrt atoms until no sqrt atom has |exponent| >= 2"""
+        if not self.sqrt_rad: return p
+        for _ in range(12):
+            todo = [m for m in p if any(a in self.sqrt_rad and (e >= 2 or e <= -2) for a, e in m)]
+            if not todo: return p
+            out = {m: c for m, c in p.items() if m not in set(todo)}
+            for m in todo:
+                c = p[m]
+                base = {(): c}
+                rest = []
                 for a, e in m:
                     if a in self.sqrt_rad and (e >= 2 or e <= -2):
-                        # s^e = rad^(e//2) * s^(e%2)
-                        c = p.pop(m)
                         k, rem = divmod(e, 2)
-                        rest = tuple((x, y) for (x, y) in m if x != a)
-                        if rem: rest = tuple(sorted(rest + ((a, rem),)))
+                        if rem: rest.append((a, rem))
                         rad = self.sqrt_rad[a]
-                        base = {rest: c}
-                        if k > 0:
-                            for _ in range(k):
-                                base = self.pmul_raw(base, rad)
-                        else:
-                            inv = self.pinv(rad)
-                            for _ in range(-k):
-                                base = self.pmul_raw(base, inv)
-                        p = self.padd(p, base)
-                        again = True
-                        break
-                if again: break
+                        fac = rad if k > 0 else self.pinv(rad)
+                        for _i in range(abs(k)):
+                            base = self.pmul_raw(base, fac)
+                    else:
+                        rest.append((a, e))
+                rest = tuple(sorted(rest))
+                for m2, c2 in base.items():
+                    mm = self.mmul(m2, rest)
+                    v = out.get(mm, 0) + c2
+                    if v == 0: out.pop(mm, None)
+                    else: out[mm] = v
+            p = out
         return p
 
     def pmul_raw(self, a, b):
@@ -159,6 +159,66 @@ class PolyCtx:
             return {((a, 1),): c}
         return p
 
+    def has_neg_den(self, p):
+        ap = self.atom_poly
+        for m in p:
+            for a, e in m:
+                if e < 0 and a in ap: return True
+        return False
+
+    def has_pos_den(self, p):
+        ap = self.atom_poly
+        for m in p:
+            for a, e in m:
+                if e > 0 and a in ap: return True
+        return False
+
+    def mul_fold(self, A, B):
+        """product with cancellation of registered denominator polynomials: (x / p) * p = x"""
+        if self.atom_poly:
+            if self.has_neg_den(A): B = self.fold_den(B)
+            if self.has_neg_den(B): A = self.fold_den(A)
+        R = self.pmul(A, B)
+        if self.atom_poly and self.has_pos_den(R):
+            R = self.expand_den(R)
+        return R
+
+    def cleared(self, p):
+        """p multiplied by the non-zero quantity  prod D^k * prod s^k  that clears every negative exponent of denominator
+        and sqrt atoms (D replaced by the polynomial it stands for), then reduced with s^2 -> radicand.  p = 0 <=> result = 0
+        (all multipliers are non-zero under the side conditions of the code's own divisions). May raise TooBig."""
+        for _round in range(6):
+            neg = {}
+            for m in p:
+                for a, e in m:
+                    if e < 0: neg[a] = max(neg.get(a, 0), -e)
+            if not neg: return p
+            if not all(self.atoms[a][0] in ('den', 'sqrt', 'var', 'node') for a in neg): return p
+            out = {}
+            for m, c in p.items():
+                term = {(): c}
+                rest = []
+                d = dict(m)
+                for a, k in neg.items():
+                    e = d.pop(a, 0)           # e in [-k, ...]
+                    up = k + e                # multiply by a^(k) : remaining exponent
+                    if up:
+                        if a in self.atom_poly:
+                            for _i in range(up):
+                                term = self.pmul_raw(term, self.atom_poly[a])
+                        else:
+                            rest.append((a, up))
+                rest = tuple(sorted(list(d.items()) + rest))
+                for m2, c2 in term.items():
+                    mm = self.mmul(m2, rest)
+                    v = out.get(mm, 0) + c2
+                    if v == 0: out.pop(mm, None)
+                    else: out[mm] = v
+                if len(out) > 4 * MAX_TERMS: raise TooBig()
+            p = self.reduce(out)
+            if self.has_pos_den(p): p = self.expand_den(p)
+        return p
+
     def monomial_content(self, p):
         """largest monomial (non-negative exponents of var atoms) dividing every term"""
         it = iter(p.keys())
@@ -173,8 +233,65 @@ class PolyCtx:
             if not g: break
         return g
 
+    def expand_den(self, p):
+        """substitute denominator atoms (with positive exponent) by the polynomials they stand for"""
+        out = {}
+        for m, c in p.items():
+            term = {(): c}
+            rest = []
+            for a, e in m:
+                if e > 0 and a in self.atom_poly:
+                    for _ in range(e):
+                        term = self.pmul_raw(term, self.atom_poly[a])
+                else:
+                    rest.append((a, e))
+            rest = tuple(rest)
+            for m2, c2 in term.items():
+                mm = self.mmul(m2, rest)
+                v = out.get(mm, 0) + c2
+                if v == 0: out.pop(mm, None)
+                else: out[mm] = v
+        return self.reduce(out)
+
+    def den_as_sqrt(self, a):
+        """for a denominator atom D (= canonical polynomial q): if some sqrt atom s has radicand r = c*q, return (s, c)
+        so that D = r / c and sqrt(r) = s"""
+        return self.sqrt_by_canon.get(self.key_of(self.atom_poly[a]))
+
+    def nonneg_atom(self, a):
+        kind = self.atoms[a][0]
+        if kind == 'sqrt': return 1
+        if kind == 'den' and self.den_as_sqrt(a) is not None: return 1
+        return 0
+
     def psqrt(self, p):
         if not p: return {}
+        # clear denominators made of non-negative atoms: sqrt(N / prod a^k) = sqrt(N) / prod a^(k/2), k even
+        neg = {}
+        for m in p:
+            for a, e in m:
+                if e < 0: neg[a] = max(neg.get(a, 0), -e)
+        if neg and all(self.nonneg_atom(a) for a in neg):
+            mult = tuple(sorted((a, k if self.atoms[a][0] == 'den' else k + (k % 2)) for a, k in neg.items()))
+            # p = N / prod D_a^k with D_a = r_a / c_a  =>  p = N * prod c_a^k / prod r_a^k
+            const = Fraction(1)
+            for a, k in mult:
+                if self.atoms[a][0] == 'den':
+                    const *= self.den_as_sqrt(a)[1] ** k
+            N = {self.mmul(m, mult): c * const for m, c in p.items()}
+            N = self.expand_den(N)
+            if not any(e < 0 for m in N for (_, e) in m):
+                root = self.psqrt(N)
+                # divide by prod sqrt(a)^(k') : for a den atom whose poly is a sqrt radicand use that sqrt atom
+                inv = []
+                for a, k in mult:
+                    if self.atoms[a][0] == 'den':
+                        inv.append((self.den_as_sqrt(a)[0], -k))
+                    else:
+                        inv.append((a, -(k // 2)))
+                invm = ()
+                for t in inv: invm = self.mmul(invm, (t,))
+                return self.reduce({self.mmul(m, invm): c for m, c in root.items()})
         if len(p) == 1:
             (m, c), = p.items()
             if not m and c >= 0:
@@ -195,23 +312,50 @@ class PolyCtx:
         if out_m:
             div = tuple(sorted((a, -2 * k) for a, k in out_m.items()))
             p = {self.mmul(m, div): c for m, c in p.items()}
+            if len(p) == 1 and () in p:
+                inner = self.psqrt(p)
+                mono = tuple(sorted(out_m.items()))
+                return {self.mmul(m, mono): c for m, c in inner.items()}
         c, key, q = self.canon(p)
-        # constant content: sqrt(c q) = sqrt(c) sqrt(q) only for perfect-square positive c ; else keep c inside
+        # constant content: sqrt(|c| r) = sqrt(|c|) sqrt(r), r = p/|c| (leading coefficient +-1), only for perfect-square |c|
         coef = None
-        if c > 0:
-            n, d = c.numerator, c.denominator
-            rn, rd = math.isqrt(n), math.isqrt(d)
-            if rn * rn == n and rd * rd == d:
-                coef = Fraction(rn, rd)
+        ac = abs(c)
+        n, d = ac.numerator, ac.denominator
+        rn, rd = math.isqrt(n), math.isqrt(d)
+        if rn * rn == n and rd * rd == d:
+            coef = Fraction(rn, rd)
+            if c < 0:
+                q = {m: -v for m, v in q.items()}
+                key = self.key_of(q)
         if coef is None:
             q = p; key = self.key_of(p); coef = Fraction(1)
         a = self.atom(('sqrt', key), 'sqrt', q)
         self.sqrt_rad[a] = q
+        cc, ckey, _ = self.canon(q)
+        self.sqrt_by_canon.setdefault(ckey, (a, cc))
         mono = tuple(sorted(list(out_m.items()) + [(a, 1)]))
         return {mono: coef}
 
     # ---- DAG -> poly ------------------------------------------------------------------
     def opaque(self, n):
+        # function applications are keyed by the canonical polynomials of their arguments, so that f(a*b*c) and f(a*(b*c))
+        # (the code's and an oracle's association) are the same atom
+        if n.op == 'uf' or n.op in ('floor', 'ceil'):
+            try:
+                args = n.args[1:] if n.op == 'uf' else n.args
+                keys = tuple(self.key_of(self.of(a)) for a in args)
+                name = n.args[0] if n.op == 'uf' else n.op
+                return {((self.atom(('uf', name, keys), 'node', n), 1),): Fraction(1)}
+            except (TooBig, RecursionError):
+                pass
+        if n.op == 'abs':
+            try:
+                p = self.of(n.args[0])
+                c, key, q = self.canon(p)
+                if p:
+                    return {((self.atom(('abs', key), 'node', S.fabs(self.to_node(q)) if c not in (1, -1) else n), 1),): abs(c)}
+            except (TooBig, RecursionError):
+                pass
         return {((self.atom(('node', n.id), 'node', n), 1),): Fraction(1)}
 
     def of(self, n):
@@ -241,14 +385,14 @@ class PolyCtx:
                 return {(): a[0]} if a[0] != 0 else {}
             if op == 'var':
                 return self.var_poly(a[0])
-            if op == 'add': return self.fold_den(self.padd(self.cache[a[0].id], self.cache[a[1].id]))
-            if op == 'sub': return self.fold_den(self.padd(self.cache[a[0].id], self.cache[a[1].id], -1))
+            if op == 'add': return self.padd(self.cache[a[0].id], self.cache[a[1].id])
+            if op == 'sub': return self.padd(self.cache[a[0].id], self.cache[a[1].id], -1)
             if op == 'neg': return {m: -c for m, c in self.cache[a[0].id].items()}
-            if op == 'mul': return self.fold_den(self.pmul(self.cache[a[0].id], self.cache[a[1].id]))
+            if op == 'mul': return self.mul_fold(self.cache[a[0].id], self.cache[a[1].id])
             if op == 'div':
                 d = self.cache[a[1].id]
                 if not d: return self.opaque(x)
-                return self.fold_den(self.pmul(self.cache[a[0].id], self.pinv(d)))
+                return self.mul_fold(self.cache[a[0].id], self.pinv(d))
             if op == 'sqrt':
                 return self.psqrt(self.cache[a[0].id])
         except TooBig:
